@@ -497,6 +497,8 @@ def rule_partial_reads(ctx):
 
 
 def run(ctx):
+    from . import protocol
+    protocol.rule_integrator_conjuncts(ctx, 'R07.13')    # restart options are taken from the integrator in use
     from . import edges
     edges.rule_snapshot_index(ctx, 'R06.13')         # exactly the completed snapshots can be loaded
     from . import c08
